@@ -320,6 +320,9 @@ func (s *UDPSock) Close() error {
 		s.N.Obs.SockClose(s.Info)
 	}
 	s.wakeup()
+	if do, ok := s.N.ioFault(s.Role, "Close", s.Info.Addr); ok && do == "error" {
+		return errInjected // the socket is closed all the same; Close merely reports an error
+	}
 	return nil
 }
 
@@ -533,6 +536,9 @@ func (l *TCPListener) Close() error {
 	select {
 	case l.notify <- struct{}{}:
 	default:
+	}
+	if do, ok := l.N.ioFault(l.Role, "Close", l.Info.Addr); ok && do == "error" {
+		return errInjected
 	}
 	return nil
 }
